@@ -139,6 +139,7 @@ def run_trace(scn):
     out["probes"] = probes
     out["faults"] = {k: v for k, v in probes.items() if k in ("on_grid", "in_band", "beyond_end", "equal_arrivals") and v}
     out["nontrivial"] = bool(out["faults"])
+    out["sim_s"] = nticks / tps
     out["sig"] = digest([tps, nticks, arrivals[:50]])
     return out
 
@@ -285,6 +286,7 @@ def run_roundtrip(scn):
     except Violation as v:
         out["violation"] = v.to_json()
     out["nontrivial"] = True
+    out["sim_s"] = 2 * max_ticks / tps
     out["sig"] = digest(scn["params"])
     return out
 
@@ -518,7 +520,7 @@ def run_behav(scn):
     def factory(rec):
         return sysdrv.wrap_workload(CSVWorkloadReader(io.StringIO(text)).get_workload(tps), rec)
     o2, rec2, st2 = sysdrv.run(dict(scn, kind="sys"), oracles=(), workload_factory=factory, keep_rounds=False)
-    out.update({k: o1[k] for k in ("ticks", "sig", "nontrivial", "probes")})
+    out.update({k: o1[k] for k in ("ticks", "sig", "nontrivial", "probes", "sim_s")})
     if o1["violation"] or o2["violation"]:
         if (o1["violation"] or {}).get("rule") != (o2["violation"] or {}).get("rule"):
             out["violation"] = Violation("C14.behaviour_differs", {"direct": o1["violation"], "through_file": o2["violation"]}).to_json()
